@@ -175,9 +175,16 @@ def r_strwrite(F, R, cat=None):
             continue
         if b.self_adt != STRING_REGION:
             continue
+        if b.trait is None and not b.d.get("vis_pub"):
+            # private inherent helper: it is inlined into its callers, which are checked there;
+            # nobody outside the module can call it
+            continue
         R.saw(b)
         ctx, effs = cat.effects(b)
         allowed = ALLOWED_INNER.get((b.trait, b.name))
+        if allowed is None and b.trait is None:
+            # a *public* inherent method: it may read, reserve or clear, and push only str bytes
+            allowed = {"append", "reserve", "clear", "read", "heap_report"}
         for e in effs:
             for (f, rest) in self_field_targets(e, ctx):
                 if f != "inner":
